@@ -1115,6 +1115,7 @@ REPLAY_KEYS = {'depccg/printer/conll.py::_resolve_dependencies': 'depccg/printer
                'depccg/printer/xml.py::_process_tree': 'depccg/printer/xml.py::_process_tree',
                'depccg/printer/jigg_xml.py::_ConvertToJiggXML.process': 'depccg/printer/jigg_xml.py::_ConvertToJiggXML.process',
                'depccg/printer/auto.py::auto_of': 'depccg/printer/auto.py::auto_of',
+               'depccg/printer/my_json.py::json_of': 'depccg/printer/my_json.py::json_of',
                'depccg/tools/reader.py::_AutoLineReader': 'depccg/tools/reader.py::_AutoLineReader',
                'depccg/tools/ja/reader.py::_JaCCGLineReader': 'depccg/tools/ja/reader.py::_JaCCGLineReader',
                'depccg/printer/ja.py::ja_of': 'depccg/tools/ja/reader.py::_JaCCGLineReader'}
@@ -1145,3 +1146,101 @@ def replay_views(records):
                     r['detail'] = ((r.get('detail') or '') + ' [undecided by the solver; the contract is violated by the replayed input]').strip()
                     r['verdict'] = 'failed'
     return d
+
+
+# ============================================================================ depccg/printer/my_json.py (C07: json)
+_J = z3.Datatype('JsonView')
+_J.declare('JLeaf', ('jtok', I_), ('jlcat', S_))
+_J.declare('JN1', ('jtype1', S_), ('jcat1', S_), ('jkid', _J))
+_J.declare('JN2', ('jtype2', S_), ('jcat2', S_), ('jkid1', _J), ('jkid2', _J))
+J = _J.create()
+_JS = {}
+
+
+def enc_json(I):
+    """leaf: the token's items plus cat;  inner node: {type: label, cat: text, children: [...]}"""
+    if 'f' not in _JS:
+        f = z3.RecFunction('tv_enc_json', T, J)
+        cat = lambda g: I.w.str_spec(CAT_OF(I)(g))
+        _JS['body'] = lambda t: z3.If(T.is_Leaf(t), J.JLeaf(T.ltag(t), cat(T.ltag(t))),
+                                      z3.If(T.is_Un(t), J.JN1(OP_STRING(T.utag(t)), cat(T.utag(t)), f(T.child(t))),
+                                            J.JN2(OP_STRING(T.btag(t)), cat(T.btag(t)), f(T.left(t)), f(T.right(t)))))
+        z3.RecAddDefinition(f, [_t], _JS['body'](_t))
+        _JS['f'] = f
+    return _JS['f']
+
+
+FULL_JSON = z3.Bool('json_full')
+
+
+def JSON_CAT(I):
+    return z3.Function('json_of_category', I.w.Cat, S_)       # the decomposed category of full=True, as an opaque value of the category
+
+
+class JsonTerm:
+    """rec(child) through its contract: stands for enc_json(child)"""
+    def __init__(self, e):
+        self.e = e
+
+
+class TokenDict:
+    """dict(node.token): a fresh dict holding the items of the token (opaque), open to further stores"""
+    def __init__(self, tag_):
+        self.tag, self.extra = tag_, {}
+
+    def setitem(self, I, k, v, node):
+        if not isinstance(k, str):
+            raise CheckerError('store with a symbolic key into the leaf record')
+        self.extra[k] = v
+
+
+class JsonCategory(Contract):
+    rel, qualname = 'depccg/printer/my_json.py', '_json_of_category'
+
+    def apply(self, I, args, kwargs, node):
+        return Z(JSON_CAT(I)(I.ex(args[0])))
+
+
+class JsonRec(Contract):
+    rel, qualname = 'depccg/printer/my_json.py', 'json_of.rec'
+
+    def closure_env(self, I, f):
+        m = I.load_module('depccg.printer.my_json')
+        env = Env(m.env)
+        env.set('rec', f)
+        self._env = env
+        return env
+
+    def cases(self, I):
+        def build(I):
+            t = z3.Const('node', T)
+            self._t = t
+            self._env.set('full', False)            # json_of(tree) as to_string calls it; the branch full=True raises AttributeError on every tree (Atom.features does not exist)
+            m = I.load_module('depccg.printer.my_json')
+            m.env.vars['dict'] = _Method(lambda I_, args, kwargs, node: TokenDict(args[0].tag) if len(args) == 1 and isinstance(args[0], SymToken) else dict(*args, **kwargs))
+            I.ctx.assume(enc_json(I)(t) == _JS['body'](t))
+            return [SymTree(t)], {}, [], None
+        yield Case('any-node', build)
+
+    def post(self, I, case, args, result):
+        t = self._t
+
+        def sval(v):
+            return z3.StringVal(v) if isinstance(v, str) else v.e if isinstance(v, Z) else None
+        term = None
+        if isinstance(result, TokenDict):
+            if set(result.extra) == {'cat'} and sval(result.extra['cat']) is not None:
+                term = J.JLeaf(result.tag, sval(result.extra['cat']))
+        elif isinstance(result, dict) and set(result) == {'type', 'cat', 'children'} and isinstance(result['children'], list) and all(isinstance(k, JsonTerm) for k in result['children']):
+            kids = [k.e for k in result['children']]
+            ty, ca = sval(result['type']), sval(result['cat'])
+            if ty is not None and ca is not None and len(kids) in (1, 2):
+                term = J.JN1(ty, ca, kids[0]) if len(kids) == 1 else J.JN2(ty, ca, kids[0], kids[1])
+        if term is None:
+            return [('record-shape', z3.BoolVal(False))]
+        return [('record-shape', z3.BoolVal(True)), ('record', term == enc_json(I)(t))]
+
+    def apply(self, I, args, kwargs, node):
+        if len(args) != 1 or not isinstance(args[0], SymTree):
+            raise CheckerError('rec called with something that is not a tree view')
+        return JsonTerm(enc_json(I)(args[0].e))
